@@ -27,7 +27,8 @@ func init() {
 // expression: another map range added to the same function is classified on its own.
 var generatorMapRangeExceptions = map[string]string{
 	"cmd.GenerateCode|range over utils.TypeRegistry.TypesInPackageRoot(inputManifest.PackageRoot)": "each key yields one CodeFile written to its own file name derived from the key; the order files are written in does not affect their content",
-	"cmd.GenerateCustomTyperefInit|range over customTyperefs":                                      "one init file per package key; the inner identifier set is visited through the sorting IdentifierSet.Range",
+	// the two other sites once listed here (the custom-typeref init files, the anonymous imports) need no exception
+	// since the classifier reads builder chains, closure parameters and constructor results (benign C20-f3, C12-g1)
 }
 
 func runR123(c *core.Ctx) {
